@@ -165,6 +165,10 @@ def make_server(log: List[Any], gate: Gate, optstr: str,
                         dict(self.chan.get_environment())))
             return True
 
+        def subsystem_requested(self, subsystem):
+            log.append(('subsystem', subsystem))
+            return True
+
     class Server(asyncssh.SSHServer):
         def connection_made(self, conn):
             self.conn = conn
@@ -578,19 +582,52 @@ def probe_restrictions(case, log, conn: RefConn, link, history, optstr,
             'pty:' + ('granted-but-forbidden' if pty_ok
                       else 'refused-but-permitted'))
 
-    conn.chan_request(ch, b'exec', True, string(b'client-cmd'))
+    # what the client asks the session to start: a forced command
+    # (command="..." on the key) replaces whatever that is - exec, shell or
+    # subsystem (sshd(8): "the command supplied by the user (if any) is
+    # ignored")
+    req = case.get('probe_req', 'exec')
+    labels.add('probe:' + req)
+    nsub = len([e for e in log if e[0] in ('subsystem', 'shell')])
+
+    if req == 'exec':
+        conn.chan_request(ch, b'exec', True, string(b'client-cmd'))
+    elif req == 'shell':
+        conn.chan_request(ch, b'shell', True)
+    else:
+        conn.chan_request(ch, b'subsystem', True, string(b'backup'))
+
     link.pump()
     execs = [e for e in log if e[0] == 'exec']
-    want_cmd = opts.get('command', 'client-cmd')
+    others = [e for e in log if e[0] in ('subsystem', 'shell')][nsub:]
 
-    if not execs or execs[-1][1] != want_cmd:
-        raise Violation('restrictions', 'command delivered to the session: '
-                        '%r, accepted credential implies %r' %
-                        (execs[-1][1] if execs else None, want_cmd),
-                        'command:' + ('forced-missing' if 'command' in opts
-                                      else 'forced-unexpected'))
+    if 'command' in opts or req == 'exec':
+        want_cmd = opts.get('command', 'client-cmd')
 
-    if 'environment' in opts:
+        if 'command' in opts and req != 'exec':
+            labels.add('forced-command-vs-' + req)
+
+        if not execs or execs[-1][1] != want_cmd or others:
+            raise Violation(
+                'restrictions', 'client asked for %s; the session was given '
+                'command %r%s, the accepted credential implies command %r' %
+                (req, execs[-1][1] if execs else None,
+                 ' and %r' % (others,) if others else '', want_cmd),
+                'command:' + ('forced-missing' if 'command' in opts
+                              else 'forced-unexpected'))
+    else:
+        want = ('shell',) if req == 'shell' else ('subsystem', 'backup')
+
+        if execs or others != [want]:
+            raise Violation('restrictions', 'client asked for %s; the '
+                            'session saw %r / %r' % (req, execs, others),
+                            'command:request-not-delivered')
+        # (the environment is only visible to this check through exec)
+        execs = []
+
+    if not execs:
+        pass
+    elif 'environment' in opts:
         k, v = opts['environment'].split('=', 1)
         if execs[-1][2].get(k) != v:
             raise Violation('restrictions', 'environment option not applied',
@@ -674,6 +711,7 @@ def strategy(tier: str):
     return st.fixed_dictionaries({
         'gated': st.booleans(), 'opts': pick(range(len(OPTION_SETS))),
         'lazy': st.booleans(),
+        'probe_req': pick(['exec', 'exec', 'shell', 'subsystem']),
         'ops': st.lists(op, min_size=0, max_size=7 if tier == 'quick'
                         else 12),
         'final': final})
@@ -1075,6 +1113,8 @@ FAMILIES = [
                              'user-switch', 'pipelined', 'gate-out-of-order',
                              'gate-armed-mid-processing', 'lazy-key-install',
                              'restrictions-probed', 'restricted-credential',
+                             'forced-command-vs-shell',
+                             'forced-command-vs-subsystem',
                              'pre-auth-probe', 'pk:ok', 'pk:wrong-sid',
                              'pk:wrong-user', 'pk:wrong-service',
                              'pk:wrong-blob', 'pk:bad-sig',
